@@ -36,7 +36,8 @@ class FGen:
         self.neq = neq
         self.max_ops = max_ops
         self.cnt = itertools.count()
-        self.stages = memory_bias and rng.random() < 0.35     # every phase opens with a Runge-Kutta stage pattern
+        self.stages = memory_bias and rng.random() < 0.5      # every phase opens with a Runge-Kutta stage pattern
+        self.stage_tt = rng.choice([["var", "<t>"], ["+", ["var", "<t>"], ["var", "<dt>"]]])
         # open finding: <builtin>elementwise_abs of an ARRAY returns a 1-based array in Fortran (pinned by
         # the repository's own test_elementwise_abs); such results are subscripted only in a rare class
         self.allow_onebased_subscript = rng.random() < 0.05
@@ -233,6 +234,8 @@ class FGen:
                 y = rng.choice(same)
                 a = rng.choice([["var", "<dt>"], ["*", ["var", "<dt>"], ["num", 0.5]], ["num", 0.5]])
                 tt = rng.choice([["var", "<t>"], ["+", ["var", "<t>"], ["var", "<dt>"]]])
+                if self.stages and not ops:
+                    tt = self.stage_tt          # the same stage times in every phase
                 ops.append(["call", ["k1"], "<func>rhs", [["var", "<t>"], ["var", y]], {}, 0])
                 ops.append(["call", ["k2"], "<func>rhs", [tt, ["+", ["var", y], ["*", a, ["var", "k1"]]]], {}, 0])
                 sc["uts"]["k1"] = tid
@@ -450,6 +453,11 @@ class FGen:
     def script(self):
         rng = self.rng
         nph = self.nphases or rng.choice([1, 1, 2, 3])
+        # a start-up phase and a steady phase that are both bare stage patterns (Heun for start-up, midpoint
+        # afterwards, ...): each phase runs, and they hand over to each other
+        bare = self.stages and self.nphases is None and rng.random() < 0.5
+        if bare:
+            nph = rng.choice([2, 2, 3])
         names = rng.sample(["main", "init", "primary", "stage2"], nph)
         persist = {"nums": ["<state>s", "<p>k"], "uts": {"<state>y": VT}, "arrs": [], "arrlen": {}}
         if rng.random() < 0.5:
@@ -485,6 +493,12 @@ class FGen:
             for a in persist["arrs"]:
                 sc["arrs"][a] = persist["arrlen"][a]
             budget = [rng.randint(2, self.max_ops)]
+            if bare:
+                budget = [1]
+            elif self.stages and rng.random() < 0.6:
+                # short phases around the stage pattern: the statements the passes create then get the same ids
+                # ('tmp', 'tmp_0', ...) in every phase
+                budget = [rng.randint(1, 3)]
             body += self.body(sc, persist, names, name, budget, 0, False)
             if rng.random() < 0.2:
                 # expression grid: many independent results of boolean / arithmetic expression shapes, observed
@@ -504,9 +518,14 @@ class FGen:
                 k2 = self.fresh("kw")
                 body.append(["call", [k2], "<func>rhs2", [["var", "<t>"], ["var", "<state>w"]], {}, 0])
                 body.append(["assign", "<state>w", None, ["+", ["var", "<state>w"], ["*", ["num", 0.5], ["var", k2]]], [], 0])
+            if rng.random() < 0.45:
+                # every component is reported at the end of the step (several output slots per method)
+                body.append(["yield", ["var", "<state>y"], VT, ["var", "<t>"], "final", 0])
+                if self.two_types:
+                    body.append(["yield", ["var", "<state>w"], VT2, ["var", "<t>"], rng.choice(["final", "t0"]), 0])
             if rng.random() < 0.8:
                 body.append(["assign", "<t>", None, ["+", ["var", "<t>"], ["var", "<dt>"]], [], 0])
-            phases.append({"name": name, "next": rng.choice(names), "body": body})
+            phases.append({"name": name, "next": names[(pi + 1) % nph] if bare else rng.choice(names), "body": body})
         return {"phases": phases, "initial": names[0], "state": state, "t0": rng.choice([0.0, 0.5]),
                 "dt0": rng.choice([0.5, 0.25]), "funcs": self.funcs, "run": {"max_steps": rng.randint(1, 5)},
                 "event_cap": 100, "ncalls": rng.randint(1, 5),
